@@ -70,18 +70,32 @@ def run(ctx: Ctx):
         ctx.use(w)
         r = set(F.raises(w))
         ctx.inst(w.qualname, sample={"worker": w.qualname, "escapes": sorted(r)})
+        gw = cfg_of(w, effects=F)
         for e in sorted(r):
-            if (w.qualname, e) in SUPPRESS:
-                chain = F.why(w, e)
-                if any("_generate_connection_id" in c for c in chain):
+            # the statements from which e really leaves the worker (not those whose e is caught)
+            esc = [n for n in gw.nodes if e in (n.raises or ()) and any(
+                d is gw.raise_exit for l, d in n.succ if l in ("exc", "raise"))]
+            chains = []
+            for n in esc:
+                ln = getattr(n.ast, "lineno", 0)
+                ch = F.why_at(w, e, ln)
+                if ch not in chains:
+                    chains.append(ch)
+            if not chains:
+                chains = [F.why(w, e)]
+            seen_tags = set()
+            for chain in chains:
+                if (w.qualname, e) in SUPPRESS and any("_generate_connection_id" in c for c in chain):
                     ctx.note(f"suppressed {e} in {w.qualname}: {SUPPRESS[(w.qualname, e)]}")
                     continue
-            chain = F.why(w, e)
-            origin = chain[-1] if chain else ""
-            tag = _origin_tag(chain)
-            ctx.fail(f"{w.qualname}:{e}@{tag}", chain[0].split(": ")[0] if chain else w.loc(),
-                     f"{e} can escape the worker {w.qualname} and terminate its thread "
-                     f"(origin: {origin})", steps=chain)
+                origin = chain[-1] if chain else ""
+                tag = _origin_tag(chain)
+                if tag in seen_tags:
+                    continue
+                seen_tags.add(tag)
+                ctx.fail(f"{w.qualname}:{e}@{tag}", chain[0].split(": ")[0] if chain else w.loc(),
+                         f"{e} can escape the worker {w.qualname} and terminate its thread "
+                         f"(origin: {origin})", steps=chain)
     # the thread target functions are indeed the analysed workers
     _thread_targets(ctx, model, workers)
     # value faults are outside the fault model's raise sets: the reader worker must isolate its
